@@ -273,12 +273,25 @@ def run(ck):
     def rs_expand(g_):
         return g_.is_lambda or g_.cls == H + "ResponseStream"
 
+    def uncast(t_):
+        """`static_cast<size_t>(sz)` / `(sz)` / `size_t(sz)` -> `sz`: a conversion of the operand is still the operand"""
+        t_ = re.sub(r"\s+", "", t_ or "")
+        while True:
+            m_ = re.match(r"^(?:static_cast<[^<>]*(?:<[^<>]*>)?[^<>]*>|\([A-Za-z_:][\w:]*\)|(?:std::)?(?:size_t|ssize_t|streamsize|int|long|unsignedlong))\((.*)\)$", t_)
+            if m_ and lib._balanced(m_.group(1)):
+                t_ = m_.group(1)
+                continue
+            if t_.startswith("(") and t_.endswith(")") and lib._balanced(t_[1:-1]):
+                t_ = t_[1:-1]
+                continue
+            return t_
+
     def frame_of(fn_):
         """[(kind, last-argument text)] kinds: hex, dec, crlf, ins (operator<< of anything else), write (ostream::write), size (Size<T>())"""
         out_ = []
         for e, args in lib.flat_calls(prog, fn_, rs_expand):
             c_ = strip_tmpl(e.get("callee") or "")
-            last = (args[-1].get("t") or "") if args else ""
+            last = uncast((args[-1].get("t") or "")) if args else ""
             if e.get("op") == "<<":
                 if last.endswith("hex"):
                     out_.append(("hex", last, e, args))
@@ -305,7 +318,7 @@ def run(ck):
     want = [("hex", None), ("ins", szp), ("crlf", None), ("write", szp), ("crlf", None)]
     ok = len(shape) == len(want) and all(k_ == wk and (wt is None or t_ == wt) for (k_, t_), (wk, wt) in zip(shape, want))
     wcall = [(e_, a_) for k_, t_, e_, a_ in fr if k_ == "write"]
-    ok = ok and len(wcall) == 1 and (wcall[0][1][0].get("t") or "") == datap and (wcall[0][1][1].get("t") or "") == szp
+    ok = ok and len(wcall) == 1 and uncast(wcall[0][1][0].get("t")) == datap and uncast(wcall[0][1][1].get("t")) == szp
     ck.ob("C05-R3", "ResponseStream::write/frame", ok, w.loc, w, "hex %s, CRLF, write(%s, %s), CRLF" % (szp, datap, szp))
     ops = prog.find(H + "operator<<", 1)
     ops = [o for o in ops if o.params and "ResponseStream" in o.params[0]["type"] and len(o.params) == 2 and "(*" not in o.params[1]["type"]]
@@ -381,6 +394,16 @@ def run(ck):
     under = lib.relation_edges(ov, is_size, is_cap, ("<",))
     ok = bool(res) and bool(under) and all(any(cfg.edge_dominates(ov, bid, k_, e) for bid, k_ in under) for e in res)
     ck.ob("C05-R4", "DynamicStreamBuf::overflow/grows-under-cap", ok, ov.loc, ov, "reserve() only on the data_.size() < maxSize_ edge")
+    # overflow() is the only put path of the buffer: one byte at a time, refused only when the buffer is full -- so a refused write
+    # leaves it full and every later write of the same message is refused too, which is what lets the serialisers test the stream
+    # once per component (some through another ostream object over the same buffer).  A bulk put path (xsputn) can refuse a large
+    # write and accept a later small one: whether a given override keeps the refusal sticky is not something this rule can read off
+    dsc = prog.cls("Pistache::DynamicStreamBuf")
+    bulk = sorted({m_.get("name") for m_ in dsc["methods"] if m_.get("virtual") and any("basic_streambuf" in o_ for o_ in (m_.get("overrides") or []))
+                   and m_.get("name") in ("xsputn", "sync", "seekoff", "seekpos", "setbuf")})
+    if bulk:
+        raise AnalysisBroken("C05-R4: DynamicStreamBuf overrides %s: a put path besides overflow() whose refusal semantics (sticky or not) this rule "
+                             "does not model" % ", ".join(bulk))
     rv = lib.single(prog, DSB + "reserve")
     rz = [e for e in rv.calls(lambda e: e.base_callee() == "std::vector::resize")]
     pname = rv.params[0]["name"]
